@@ -5,5 +5,5 @@ EXTENDS HttpPipeline
 V(k, n, c) == [k |-> k, n |-> n, close |-> c]
 MCVariants == { V("G", 5, FALSE), V("G", 0, FALSE), V("G", 5, TRUE), V("H", 5, FALSE), V("P", 3, FALSE), V("C", 3, FALSE),
                 V("T", 0, FALSE), V("R", 3, FALSE), V("N", 0, FALSE), V("M", 0, FALSE), V("O", 0, FALSE), V("B", 1, FALSE),
-                V("B", 3, FALSE), V("U", 1, FALSE), V("U", 2, FALSE), V("U", 4, FALSE), V("L", 64, FALSE), V("L", 4096, FALSE) }
+                V("B", 3, FALSE), V("U", 1, FALSE), V("U", 2, FALSE), V("U", 4, FALSE), V("L", 64, FALSE), V("L", 4096, FALSE), V("L", 4096, TRUE) }
 ====
